@@ -291,6 +291,11 @@ def check_index(system):
     e2 = [e for e in exp if e[0] in strict]
     if g2 != e2:
         bad.append(({'kind': 'index_entries'}, 'index lists %r, file holds %r' % (g2, e2)))
+    again = list(system.index.genLogPasses())
+    both = [a.logPass for a, _b in zip(system.index.genLogPasses(), system.index.genLogPasses())]
+    if len(again) != len(system.passes) or any(a.logPass is not b.logPass for a, b in zip(again, system.passes)) or len(both) != len(system.passes):
+        bad.append(({'kind': 'log_passes_walked_again'}, 'genLogPasses() gave %d log passes the first time, %d the second time, %d with two walks in step'
+                    % (len(system.passes), len(again), len(both))))
     if len(system.passes) != len(system.pass_list):
         bad.append(({'kind': 'log_pass_count'}, '%d log passes found, %d written' % (len(system.passes), len(system.pass_list))))
         return bad
